@@ -50,6 +50,50 @@ theorem rdivpot_cases (x : Int) (e : Nat) :
     · simp only [hx, if_false]
       split <;> split <;> (try split) <;> omega
 
+/-- `SaturatingRoundingDoublingHighMul` is `⌊(a·b + 2^30) / 2^31⌋` (round to nearest, ties towards +∞)
+    outside its single saturating case -/
+theorem srdhm_floor (a b : Int) (h : ¬ (a = INT32_MIN ∧ b = INT32_MIN)) :
+    srdhm a b = (a * b + 1073741824) / 2147483648 := by
+  unfold srdhm
+  rw [if_neg h]
+  generalize a * b = p
+  by_cases hp : p ≥ 0
+  · simp only [hp, if_true]
+    rw [Int.tdiv_eq_ediv_of_nonneg (by omega)]
+  · simp only [hp, if_false]
+    rw [Int.tdiv_eq_ediv]
+    have hs : Int.sign 2147483648 = 1 := by decide
+    rw [hs]
+    split
+    · rename_i h
+      rcases h with h | h <;> omega
+    · rename_i h
+      have h2 : ¬ (2147483648 : Int) ∣ p + (1 - 1073741824) := fun hh => h (Or.inr hh)
+      omega
+
+
+/-- the reference multiplier 2^30 with shift 0 (an input whose scale is the larger one) halves exactly -/
+theorem mbqm_half (x : Int) (L : Nat) (hL : 1 ≤ L) : mbqm (x * (2 : Int) ^ L) 1073741824 0 = x * (2 : Int) ^ (L - 1) := by
+  unfold mbqm
+  have hns : ¬ (x * (2 : Int) ^ L = INT32_MIN ∧ (1073741824 : Int) = INT32_MIN) := by
+    intro h; have := h.2; simp [INT32_MIN] at this
+  simp only [show ¬ ((0 : Int) > 0) by omega, if_false, Int.pow_zero, Int.mul_one]
+  rw [srdhm_floor _ _ hns, rdivpot_cases]
+  simp only [show (-(0:Int)).toNat = 0 by rfl, Int.pow_zero, Int.emod_one, Int.ediv_one]
+  have hp : (2 : Int) ^ L = 2 * (2 : Int) ^ (L - 1) := by
+    have : L = (L - 1) + 1 := by omega
+    rw [this, two_pow_succ]; simp
+  rw [hp]
+  generalize (2 : Int) ^ (L - 1) = P
+  have : x * (2 * P) * 1073741824 = (x * P) * 2147483648 := by
+    rw [Int.mul_comm 2 P, ← Int.mul_assoc, Int.mul_assoc (x * P) 2 1073741824]
+    rfl
+  rw [this]
+  generalize x * P = y
+  have h0 : (y * 2147483648 + 1073741824) / 2147483648 = y := by omega
+  rw [h0]
+  simp
+
 open VelaVerif.Tiling in
 theorem execStripes_row {α β : Type} (op : (Nat → α) → Nat → β) (lo hi : Nat → Nat) (hloc : IsLocal op lo hi)
     (inp : Nat → α) (l : List (Stripe α)) (hsee : ∀ s ∈ l, s.sees inp lo hi) (y : Nat) :
